@@ -26,7 +26,7 @@ GRID_FAMILY = {
     # aligned with the bbox top at levels 0 and 2 only (origin flip must be refused)
     'align0_ll': dict(srs='EPSG:25832', bbox=(0, 0, 384000, 256000), res=[500, 300, 100], origin='ll'),
     'close_ll': dict(srs='EPSG:25832', bbox=(0, 0, 1000000, 1000000), res=[1000, 950, 900, 500, 480, 100],
-                     origin='ll', stretch_factor=2.5),
+                     origin='ll', stretch_factor=2.5, max_shrink_factor=3.0),
 }
 
 QUICK_GRIDS = ['align0_ll', 'merc_ll', 'geod_ul', 'sqrt2_ll', 'utm_ul', 'utm_ll', 'frac_ll', 'frac_ul', 'multi0_ul']
@@ -51,6 +51,12 @@ def seeded_grid_cfg(seed, i):
     res = [round(r, rnd.choice([1, 3, 6])) for r in res]
     return dict(srs='EPSG:25832', bbox=(x0, y0, x0 + w, y0 + h), res=res, tile_size=ts,
                 origin=rnd.choice(['ll', 'ul']))
+
+
+def configured(name, key, default, seed=0):
+    """the value written in the grid configuration (what the user asked for), not what the built grid reports"""
+    kw = seeded_grid_cfg(seed, int(name[6:])) if name.startswith('seeded') else GRID_FAMILY[name]
+    return kw.get(key, default)
 
 
 def make_grid(gmod, name, seed=0):
